@@ -297,7 +297,7 @@ def _isinstance1(ex, obj, c):
         if ty is TNone: return z3.BoolVal(False)
         cty = ex.type_for_class(c.rel, c.name)
         if cty is not None and cty == ty: return z3.BoolVal(True)
-        if isinstance(ty, (TEnum, TRec)) or ty in (TInt, TBool, TStr, TFloat): return z3.BoolVal(False)
+        if isinstance(ty, (TEnum, TRec, T.TSeq, T.TTuple, T.TSet, T.TMap)) or ty in (TInt, TBool, TStr, TFloat): return z3.BoolVal(False)      # (builtin containers / scalars are instances of no repository class)
         if isinstance(ty, TRef) and ty.universal:
             return z3.Function('isinstance_' + c.name, sort_of(ty), z3.BoolSort())(obj.t)
         if isinstance(ty, TRef):
